@@ -37,6 +37,7 @@ def mu_spec(N, t, PS, k):
     """null conditional mean before draw k (0-based)"""
     if N is None:
         return npx(t)
+    k = idx_term(k)          # canonical index term, as used by array accesses
     return xdiv_np(npx(xsub(xmul(XR.const(N), t), PS.at(k))), npx(XR.const(isub(N, k))))
 
 
@@ -341,6 +342,28 @@ def inside(mu, u):
     return band(mu.fin(), xcmp(">", mu, XR.const(0)), xcmp("<", mu, u))
 
 
+def mono_lemma(S, x, n, u, t, Nspec):
+    """lemma: the null mean cannot re-enter (0,u):  k >= 1 and 0 < mu_k < u  =>  0 < mu_{k-1} < u.
+    Proved once at a fresh index from the definition of the partial sums only (modular: small NRA query)."""
+    c = ctx()
+    PS = x.fold("+")
+    mu = lambda k: mu_spec(Nspec, t, PS, k)
+    goal = lambda k: bimp(band(icmp(">=", k, 1), inside(mu(k), u)), inside(mu(isub(k, 1)), u))
+    k0 = z3.Int(c.fresh("mono_k"))
+    c.index_terms_add(k0)
+    xk = x.at(mkint(isub(k0, 1)))
+    hyps = [k0 >= 1, k0 < zi(n), zi(n) <= zi(iterm(Nspec)), xcmp(">", u, XR.const(0)), xcmp(">=", xk, XR.const(0)), xcmp("<=", xk, u),
+            xsame(PS.at(k0), xadd(PS.at(mkint(isub(k0, 1))), xk))]      # definition of the running sum (ghost fold unfolding)
+    r = S.prove_using("null-mean-monotone", goal(k0), hyps, opaque=[])
+    ok = r.status == "proved"
+
+    def inst(k):
+        if ok:
+            c.assume(bimp(band(icmp(">=", k, 0), icmp("<", k, n)), goal(zi(k))))
+        return ok
+    return inst
+
+
 @script(["C11", "C01"], "NonnegMean.alpha_mart/well-formed", variants=(("finiteN",), ("infN",)))
 def alpha_wf(S, I, variant):
     mart_wf(S, I, "alpha", variant[0] == "finiteN")
@@ -429,8 +452,7 @@ def mart_wf(S, I, which, finiteN):
     _, _, M, w, wn, terms = ext[0]
     # lemma M: the null mean cannot re-enter (0,u):  inside(mu_k) and k >= 1  =>  inside(mu_{k-1})
     if finiteN:
-        mono = S.forall_lemma("null-mean-monotone", n, lambda k: bimp(band(icmp(">=", k, 1), inside(mu(k), u)),
-                                                                 inside(mu(isub(k, 1)), u)))
+        mono = mono_lemma(S, x, n, u, t, Nspec)
     else:
         mono = lambda i: True
 
@@ -1663,7 +1685,7 @@ def alpha_betting_equiv(S, I, variant):
         if rfi.status == "proved":
             c.assume(bimp(band(icmp(">=", k, 0), icmp("<", k, n)), gk(zi(k))))
     if finiteN:
-        mono = S.forall_lemma("null-mean-monotone", n, lambda k: bimp(band(icmp(">=", k, 1), inside(mu(k), u)), inside(mu(isub(k, 1)), u)))
+        mono = mono_lemma(S, x, n, u, t, Nspec)
     else:
         mono = lambda i: True
     inst = induction_with(S, "products agree while the null mean stays inside (0,u)",
